@@ -1,5 +1,6 @@
 """Enforcement cases: one representation, sent both to the model (suite 4) and to the real
 Enforcer (fresh ConfigOpts + Enforcer per case)."""
+import os
 import ast
 import re
 
@@ -234,12 +235,32 @@ def run_impl(case, deep=None):
     conf.set_override('enforce_scope', bool(case.get('enforce_scope', True)), group='oslo_policy')
     for k, v in case.get('conf', {}).items():
         conf.set_override(k, v, group='oslo_policy')
-    e = policy.Enforcer(conf, use_conf=False, **kw)
+    if case.get('from_file'):
+        # the rule set reaches the enforcer the way an operator's does: a policy file, loaded
+        import json as _json
+        from common import work_dir
+        kw['policy_file'] = os.path.join(work_dir(), 'pf_%d.json' % os.getpid())
+        with open(kw['policy_file'], 'w') as f:
+            _json.dump(case['rules'], f)
+        e = policy.Enforcer(conf, **kw)
+    else:
+        e = policy.Enforcer(conf, use_conf=False, **kw)
     for name, types in case.get('registered', {}).items():
         e.register_default(policy.RuleDefault(name, case.get('registered_check', {}).get(name, '!'),
                                               scope_types=types or None))
     carrier = case.get('carrier', 'rules_same')
-    if carrier == 'dict':
+    if case.get('from_file'):
+        e.load_rules()
+    elif case.get('prehistory') is not None and carrier == 'rules_same':
+        # the rule store has a past: other definitions of the same names were in force (and an undefined name was
+        # enforced) before the current definitions were written over them in place
+        e.set_rules(policy.Rules.from_dict(case['prehistory'], e.default_rule), use_conf=False)
+        try:
+            e.enforce('zz_probe_undefined', {}, {'roles': ['x', 'y']})
+        except Exception:   # noqa
+            pass
+        e.set_rules(policy.Rules.from_dict(case['rules']), overwrite=False, use_conf=False)
+    elif carrier == 'dict':
         e.set_rules({k: _parser.parse_rule(v) for k, v in case['rules'].items()}, use_conf=False)
     elif carrier == 'rules_other':
         # a Rules object that carries a DIFFERENT default rule than the enforcer is configured with
@@ -271,6 +292,28 @@ def run_impl(case, deep=None):
     target = copy.deepcopy(case['target']) if deep is None else deep
     if isinstance(creds, dict):
         creds = copy.deepcopy(creds)
+    if deep is None and isinstance(target, dict) and case.get('warm', True):
+        # The SAME enforcer, check objects, target object and credentials object first see other contents:
+        # a decision may depend only on what the objects hold at the time of the call.
+        real_t = dict(target)
+        real_c = dict(creds) if type(creds) is dict else None
+        target.clear()
+        target.update({k: v + '_decoy' for k, v in real_t.items() if isinstance(v, str)})
+        if real_c is not None:
+            creds.clear()
+            creds.update({k: ([r + '_decoy' for r in v if isinstance(r, str)] if isinstance(v, list) else v)
+                          for k, v in real_c.items() if k != 'system_scope'})
+        try:
+            e.enforce(rule, target, creds, False)
+        except Exception:   # noqa
+            pass
+        target.clear()
+        target.update(real_t)
+        if real_c is not None:
+            creds.clear()
+            creds.update(real_c)
+        del _trace[:]
+        _last_request.clear()
     try:
         r = fn(rule, target, creds, bool(case.get('do_raise')), exc, *args, **kwargs)
         res = ('ret', bool(r))
@@ -337,6 +380,11 @@ def convert_creds(how, creds):
         return ctx
     if how == 'policy_values':
         return ctx.to_policy_values()
+    if how == 'policy_values+system':
+        # the mapping a service gets from its context, with the legacy spelling added by the service
+        pv = ctx.to_policy_values()
+        pv['system'] = 'all'
+        return pv
     raise ValueError(how)
 
 
